@@ -70,9 +70,10 @@ def warmup(tier: str) -> None:
     U["sys_real"] = {"em": System.from_bodies("earth", "moon"), "se": System.from_bodies("sun", "earth")}
     U["sys_twin"] = {"em": System.from_bodies("earth", "moon"), "se": System.from_bodies("sun", "earth")}
     _TMPDIR = tempfile.mkdtemp(prefix="verif_c20_")
-    from checks import c20_orbit, c20_cm
+    from checks import c20_orbit, c20_cm, c20_manifold
     c20_orbit.warmup(U, tier)
     c20_cm.warmup(U, tier)
+    c20_manifold.warmup(U, tier)
 
 
 def tmp_path(name: str) -> str:
@@ -215,12 +216,14 @@ def faulty_open(limit: int, kind: str):
 
 # --------------------------------------------------------------------------- dispatch
 def execute(ctx: RunCtx) -> None:
-    from checks import c20_orbit, c20_cm
-    kind = ctx.ds.pick(["orbit", "cm"], "machine", (0.6, 0.4))
+    from checks import c20_orbit, c20_cm, c20_manifold
+    kind = ctx.ds.pick(["orbit", "cm", "manifold"], "machine", (0.5, 0.35, 0.15))
     if kind == "orbit":
         c20_orbit.run_history(ctx, U)
-    else:
+    elif kind == "cm":
         c20_cm.run_history(ctx, U)
+    else:
+        c20_manifold.run_history(ctx, U)
 
 
 LEGS = {"history": execute}
@@ -230,10 +233,10 @@ def pre_phases(report, cfg, procs):
     """Bounded-exhaustive sweep: every history of length <= enum_len over each machine's reduced alphabet."""
     from simkit.driver import run_jobs
     import checks.c20 as me
-    from checks import c20_orbit, c20_cm
+    from checks import c20_orbit, c20_cm, c20_manifold
     jobs = []
     tag = 0
-    for mod in (c20_orbit, c20_cm):
+    for mod in (c20_orbit, c20_cm, c20_manifold):
         for vals in mod.enumeration(cfg["enum_len"]):
             jobs.append(("values", tag, "history", vals))
             tag += 1
